@@ -13,19 +13,24 @@ PROPS_FILE = "Props/C14.v"
 GEN_FILES = ["Gen/C14_alias.v"]
 MODEL_FILES = ["Model/C14_heap.v"]
 ALLOWED_AXIOMS: list[str] = []
-CASE_HEADER = ("From Coq Require Import String List.\nFrom LK Require Import Lib.StrDict Gen.C14_alias Model.C14_heap.\n"
+BASE_HEADER = ("From Coq Require Import String List.\nFrom LK Require Import Lib.StrDict Gen.C14_alias Model.C14_heap.\n"
                "Import ListNotations.\nOpen Scope string_scope.")
+# the case files share one table of string constants, appended to the header as the case terms are made (see share_strings)
+CASE_HEADER = BASE_HEADER
 SHARD = 8
 SEARCH_CASES = 400
 TRUSTED = [
     "Coq 8.16.1 kernel + vm_compute (no native_compute); Print Assumptions of every theorem in Props/C14.v: closed under the global context",
     "alias-table extractor harness/translate/c14.py (how from_pipeline, build_config/build, Pipeline.__init__, clone/from_config, connect, clear_inputs, "
     "DatasetBuilder.__init__ and build_container obtain the mutable dictionaries of their source: Share / Shallow / Copy; how connect / clear_inputs / node resolve "
-    "the name, node object or alias they are handed; the set of statements that bind a wiring dictionary) and the two syntactic scans (ItemList parameters of "
-    "component calls; parameters holding a built Dataset / DataContainer / Pipeline anywhere in lenskit) -- regenerated and re-proved on every run",
+    "the name, node object or alias they are handed; the set of statements that bind a wiring dictionary) and the three syntactic scans (ItemList parameters of "
+    "component calls; parameters holding a built Dataset / DataContainer / Pipeline or the document describing one -- PipelineConfig, DataSchema, the argument of "
+    "from_config, also after model_validate / cast -- anywhere in lenskit; methods of a built Dataset / DataContainer / Pipeline writing through the parts that "
+    "describe it) -- regenerated and re-proved on every run",
     "hand-written heap model (Model/C14_heap.v): which object holds which reference and which operation writes through which; the CONTENT a dataset builder "
     "writes into its own schema/tables after each call is taken from the builder itself (the subject is aliasing, not schema logic)",
-    "correspondence: random histories against real objects, every built pipeline and dataset re-observed after every step and compared with the model inside Coq",
+    "correspondence: random histories against real objects, every built pipeline and dataset re-observed after every step and compared with the model inside Coq "
+    "(observations written as differences, trace_ok_d; PipelineBuilder.from_config as the model's from_config_ops applied to the document the pipeline showed before the call)",
     "Arrow tables, nodes and ItemList objects are treated as immutable values; that shipped components leave their ItemList inputs unchanged is checked by the "
     "oracle (digest of every ItemList argument of every component call before and after), not proved",
 ]
@@ -36,24 +41,42 @@ ASSUMPTIONS = [
 ]
 RULE = ("histories of 8-30 operations over both families: dataset builder (entity classes, entities, interactions with new attributes and repeats, relationship "
         "classes, scalar/list/vector attributes, time and row filters, clear) -> build -> derive a builder from the dataset / keep using the producing builder / "
-        "split (records, users, temporal) ; pipeline builder over importable functions and configurable/trainable components -> build -> modify() and rewire / "
+        "split (records, users, temporal) ; pipeline builder over every KIND of component -- importable functions, Component subclasses by class + settings and by "
+        "instance, plain callable objects (neither; with state given by the caller, without and with train()) --, literal values wired straight to inputs and "
+        "re-wired afterwards (literal nodes left behind that nothing refers to), named literal nodes never wired -> build -> modify() and rewire / "
         "replace / add / alias / clear / change default -- every operation naming its node by node name, by node object or by an alias string, input sources "
-        "looked up by name or through an alias, the derived builder edited straight after modify() --, clone(), train the clone, run, keep using the producing "
-        "builder, build again (one builder producing several "
+        "looked up by name or through an alias, the derived builder edited straight after modify() --, clone() then train the clone on other data and run it, "
+        "the pipeline's OWN configuration object handed back (Pipeline.from_config(p.config); PipelineBuilder.from_config(p.config) then edit / build; from its "
+        "JSON form; PipelineConfig.model_validate), train, run, keep using the producing builder, build again (one builder producing several "
         "pipelines with and without edits in between, components added by class + settings and by instance, each sibling trained on other data and run; "
         "trained pipelines keep being re-observed, and two pipelines may hold the same component object only where that is specified); after every step every "
-        "built object is re-observed (config JSON, hash, wiring, node_input_connections, private wiring, alias / name lookups, run results; schema (fields and whole "
+        "built object is re-observed -- its description (configuration document; schema document and tables) FIRST, straight after it was built and before any "
+        "accessor has been used on it, and again after each group of read-only accessors within the observation (entities, relationships, interactions(), "
+        "vocabularies, statistics, counts, matrices, user rows, save; wiring lookups and runs) -- (config JSON, hash and the hash of the configuration as it stands, wiring, node_input_connections, private wiring, alias / name lookups, run results; schema (fields and whole "
         "document), tables, vocabularies, matrices with values, attributes, per-user / per-item statistics and the statistics of every matrix, counts, user rows, "
-        "saved form (when first seen, after every derivation from it, at the end)); datasets with declared-but-empty entity classes and with users / items that "
-        "never interact; the observer never edits a frame it is handed; plus standard pipelines around shipped scorers trained and run with every ItemList argument digested before and after each "
+        "saved form (when first seen, after every derivation from it, at the end)); datasets with declared-but-empty entity classes, with users / items that "
+        "never interact, and with the default interaction class marked or left to be worked out (one class, several, none); the observer never edits a frame it is handed; plus standard pipelines around shipped scorers trained and run with every ItemList argument digested before and after each "
         "component call; non-trivial = at least one object observed across >= 3 later steps of which >= 1 is a mutation through a derived or producing builder; "
         "distinct = by hash of the case")
 
-TRAINABLE_CODES = ["vcomp:Learner"]
+TRAINABLE_CODES = ["vcomp:Learner", "c14_comp:PlainLearner"]
+TRAINABLE = ("Learner", "PlainLearner")
+# component KINDS: importable functions, Component subclasses (added by class + settings or as an instance of the caller's), and plain
+# callable OBJECTS (neither: the configuration records only their class) -- without and with train()
 SIGS = {"inc": ["x"], "neg": ["x"], "add": ["x", "y"], "mix3": ["a", "b", "c"], "twice": ["x"], "Scale": ["x"], "Affine": ["x", "y"],
-        "Learner": ["x"], "NoSettings": ["x"]}
+        "Learner": ["x"], "NoSettings": ["x"], "Plain": ["x"], "PlainLearner": ["x"]}
 STYLES = {"inc": ["fn"], "neg": ["fn"], "add": ["fn"], "mix3": ["fn"], "twice": ["fn"], "Scale": ["class", "instance"], "Affine": ["class", "instance"],
-          "Learner": ["class", "class", "instance"], "NoSettings": ["class", "instance"]}
+          "Learner": ["class", "class", "instance"], "NoSettings": ["class", "instance"], "Plain": ["instance"], "PlainLearner": ["instance"]}
+CODES = {"inc": "vcomp:inc", "neg": "vcomp:neg", "add": "vcomp:add", "mix3": "vcomp:mix3", "twice": "vcomp:Box.twice", "Scale": "vcomp:Scale",
+         "Affine": "vcomp:Affine", "Learner": "vcomp:Learner", "NoSettings": "vcomp:NoSettings", "Plain": "c14_comp:Plain",
+         "PlainLearner": "c14_comp:PlainLearner"}
+LIT_VALUES = [0, 2, 5, 2.5, "v", [1, 2], True]      # literal values wired straight to an input (few, so that they recur)
+LIT_NAMES = ["k1", "k2"]                             # literal nodes the caller names
+
+
+def settings_for(rng, comp):
+    r = rng.randint(1, 5)
+    return {"Scale": {"factor": r}, "Affine": {"a": r}, "Learner": {"bias": r + 3}, "PlainLearner": {"bias": r + 3}, "Plain": {"k": r}}.get(comp, {})
 SHIPPED = ["lenskit.basic.bias:BiasScorer", "lenskit.basic.popularity:PopScorer", "lenskit.knn.item:ItemKNNScorer", "lenskit.knn.user:UserKNNScorer",
            "lenskit.als._explicit:BiasedMFScorer", "lenskit.als._implicit:ImplicitMFScorer", "lenskit.funksvd:FunkSVDScorer",
            "lenskit.sklearn.svd:BiasedSVDScorer", "lenskit.basic.history:KnownRatingScorer"]
@@ -76,9 +99,16 @@ def translate():
 # ---------------------------------------------------------------------------------------------
 
 
+def pcopy(p, tok=None):
+    "symbolic state of a pipeline / builder derived from another one"
+    return {"nodes": dict(p["nodes"]), "comps": dict(p["comps"]), "aliases": dict(p["aliases"]), "tok": dict(p["tok"]) if tok is None else tok,
+            "lw": {n: set(v) for n, v in p["lw"].items()}}
+
+
 class Sym:
     def __init__(self):
-        self.pblds = []   # {"nodes": {name: kind}, "comps": {name: compkey}, "aliases": {alias: node name}, "tok": {name: token}}
+        self.pblds = []   # {"nodes": {name: kind}, "comps": {name: compkey}, "aliases": {alias: node name}, "tok": {name: token},
+        #                     "lw": {component: inputs that currently hold a literal value}}
         self.pipes = []   # {"nodes", "comps", "aliases", "tok"}
         self.dblds = []   # {"ents": {cls: set}, "rels": {cls: bool has time}, "attrs": set}
         self.dsets = []
@@ -106,6 +136,9 @@ def gen_history(rng):
     items = list(range(1, 9))
     users = list(range(100, 106))
     idle_users = list(range(106, 110))
+    # whether the rating class is MARKED as the default interaction class (otherwise -- the builder's own default -- the dataset has to
+    # work it out whenever it is asked for its interactions: a schema entry that is resolved lazily)
+    mark_default = rng.chance(1, 2)
 
     def new_dbld(name):
         ops.append({"op": "dnew", "name": name})
@@ -126,7 +159,7 @@ def gen_history(rng):
         elif choice == "interactions":
             rows = gen_ratings(rng, users, items, rng.randint(2, 8))
             ops.append({"op": "db_interactions", "b": i, "cls": "rating", "rows": rows, "columns": ["user_id", "item_id", "rating", "timestamp"],
-                        "entities": ["user", "item"], "default": "rating" not in b["rels"], "repeats": False})
+                        "entities": ["user", "item"], "default": mark_default and "rating" not in b["rels"], "repeats": False})
             b["rels"]["rating"] = True
             b["ents"].setdefault("user", set())
             b["ents"]["user"] |= {r[0] for r in rows}
@@ -179,7 +212,7 @@ def gen_history(rng):
 
     def new_pbld(name):
         ops.append({"op": "pnew", "name": name})
-        S.pblds.append({"nodes": {}, "comps": {}, "aliases": {}, "tok": {}})
+        S.pblds.append({"nodes": {}, "comps": {}, "aliases": {}, "tok": {}, "lw": {}})
         return len(S.pblds) - 1
 
     def gen_ins(b, comp, me, frac=(3, 4)):
@@ -203,13 +236,24 @@ def gen_history(rng):
                 out[p_] = rng.choice(al)
         return out
 
+    def gen_lits(comp, ins, frac=(1, 4)):
+        "literal VALUES wired straight to inputs the operation does not connect to a node (the builder makes a literal node for each)"
+        taken = {p_ for p_, _ in ins}
+        return {p_: rng.choice(LIT_VALUES) for p_ in SIGS[comp] if p_ not in taken and rng.chance(*frac)}
+
+    def wired(b, n, ins, lits):
+        lw = b["lw"].setdefault(n, set())
+        lw -= {p_ for p_, _ in ins}
+        lw |= set(lits)
+
     def pb_step(i, prefer=None):
         b = S.pblds[i]
         comps = sorted(b["comps"])
         if prefer in ("connect", "clear", "default") and not comps:
             prefer = None
         choice = prefer or rng.weighted([("add", 3), ("connect", 4 if comps else 0), ("clear", 2 if comps else 0), ("replace", 2 if comps else 0),
-                                         ("alias", 3), ("unalias", 1 if b["aliases"] else 0), ("default", 1 if comps else 0), ("input", 1)])
+                                         ("alias", 3), ("unalias", 1 if b["aliases"] else 0), ("default", 1 if comps else 0), ("input", 1),
+                                         ("literal", 1)])
         if choice == "input":
             n = rng.choice([x for x in ["a", "b", "c", "d"] if x not in b["nodes"] and x not in b["aliases"]] or [None])
             if n:
@@ -223,32 +267,54 @@ def gen_history(rng):
             comp = rng.choice(sorted(SIGS))
             st = rng.choice(STYLES[comp])
             op = {"op": "pb_add", "b": i, "name": n, "comp": comp, "style": st, "ins": gen_ins(b, comp, n)}
+            op["lits"] = gen_lits(comp, op["ins"])
             if st != "fn":
-                op["settings"] = {"factor": rng.randint(1, 5)} if comp == "Scale" else {"a": rng.randint(1, 5)} if comp == "Affine" else \
-                    {"bias": rng.randint(0, 9)} if comp == "Learner" else {}
+                op["settings"] = settings_for(rng, comp)
             ops.append(op)
             b["nodes"][n] = "comp"
             b["comps"][n] = comp
             b["tok"][n] = ("ctor",) if st == "class" else ("inst", S.tok())
+            b["lw"][n] = set()
+            wired(b, n, op["ins"], op["lits"])
+        elif choice == "literal":
+            # a literal node the caller names; nothing need ever be wired to it
+            free = [x for x in LIT_NAMES if x not in b["nodes"] and x not in b["aliases"]]
+            if free:
+                n = rng.choice(free)
+                ops.append({"op": "pb_literal", "b": i, "name": n, "value": rng.choice(LIT_VALUES)})
+                b["nodes"][n] = "lit"
         elif choice == "connect":
             aliased = sorted({t for t in b["aliases"].values() if t in b["comps"]})
             n = rng.choice(aliased) if aliased and rng.chance(1, 2) else rng.choice(comps)
             ins = gen_ins(b, b["comps"][n], n, (2, 3))
-            ops.append({"op": "pb_connect", "b": i, "name": n, "ins": ins, "ins_via": ins_via(b, ins), **addr(b, n)})
+            lits = gen_lits(b["comps"][n], ins)
+            held = sorted(b["lw"].get(n, ()))
+            if held and rng.chance(2, 3):
+                # an input that holds a literal value is wired anew -- to a node or to another value: the literal node it had stays behind, unreferenced
+                p_ = rng.choice(held)
+                if all(p_ != q for q, _ in ins):
+                    lits[p_] = rng.choice(LIT_VALUES)
+            ops.append({"op": "pb_connect", "b": i, "name": n, "ins": ins, "lits": lits, "ins_via": ins_via(b, ins), **addr(b, n)})
+            wired(b, n, ins, lits)
         elif choice == "clear":
             n = rng.choice(comps)
             ops.append({"op": "pb_clear", "b": i, "name": n, **addr(b, n)})
+            if ops[-1].get("by") != "alias":
+                b["lw"][n] = set()
         elif choice == "replace":
             n = rng.choice(comps)
             comp = rng.choice(sorted(SIGS))
             st = rng.choice(STYLES[comp])
             op = {"op": "pb_replace", "b": i, "name": n, "comp": comp, "style": st, "ins": gen_ins(b, comp, n, (1, 3)), **addr(b, n, ("name", "node"))}
             op["ins_via"] = ins_via(b, op["ins"])
+            op["lits"] = gen_lits(comp, op["ins"], (1, 6))
             if st != "fn":
-                op["settings"] = {"bias": rng.randint(0, 9)} if comp == "Learner" else {}
+                op["settings"] = settings_for(rng, comp)
             ops.append(op)
             b["comps"][n] = comp
             b["tok"][n] = ("ctor",) if st == "class" else ("inst", S.tok())
+            b["lw"][n] = {p_ for p_ in b["lw"].get(n, ()) if p_ in SIGS[comp]}
+            wired(b, n, op["ins"], op["lits"])
         elif choice == "alias":
             free = [x for x in ["al1", "rec", "zz"] if x not in b["nodes"] and x not in b["aliases"]]
             if free and b["nodes"]:
@@ -271,10 +337,19 @@ def gen_history(rng):
         b = S.pblds[i]
         ops.append({"op": "pbuild", "b": i})
         tok = {n: (("inst", S.tok()) if t == ("ctor",) else t) for n, t in b["tok"].items()}
-        S.pipes.append({"nodes": dict(b["nodes"]), "comps": dict(b["comps"]), "aliases": dict(b["aliases"]), "tok": tok})
+        S.pipes.append(pcopy(b, tok))
 
     def learner_toks(p):
-        return {t for n, t in p["tok"].items() if p["comps"].get(n) == "Learner"}
+        return {t for n, t in p["tok"].items() if p["comps"].get(n) in TRAINABLE}
+
+    def fresh_toks(p):
+        return {n: ("inst", S.tok()) for n in p["tok"]}
+
+    def use_derived(j, d_other=None):
+        "a pipeline derived from another one is trained (on other data when there is a choice) and run"
+        if S.dsets:
+            ops.append({"op": "ptrain", "p": j, "d": rng.below(len(S.dsets)) if d_other is None else d_other})
+        ops.append({"op": "prun", "p": j, "inputs": {"a": rng.randint(0, 9), "b": rng.randint(0, 9)}})
 
     # --- a dataset and a pipeline to start with ---
     d0 = new_dbld(rng.choice(["d0", "ml"]))
@@ -294,7 +369,7 @@ def gen_history(rng):
     if "rating" not in S.dblds[d0]["rels"]:
         rows = gen_ratings(rng, users, items, 6)
         ops.append({"op": "db_interactions", "b": d0, "cls": "rating", "rows": rows, "columns": ["user_id", "item_id", "rating", "timestamp"],
-                    "entities": ["user", "item"], "default": True, "repeats": False})
+                    "entities": ["user", "item"], "default": mark_default, "repeats": False})
         S.dblds[d0]["rels"]["rating"] = True
         S.dblds[d0]["ents"].setdefault("user", set())
     dbuild(d0)
@@ -303,7 +378,7 @@ def gen_history(rng):
     ops.append({"op": "db_entities", "b": d1, "cls": "item", "ids": list(range(20, 20 + rng.randint(3, 9)))})
     rows = gen_ratings(rng, users, list(range(20, 23)), 5)
     ops.append({"op": "db_interactions", "b": d1, "cls": "rating", "rows": rows, "columns": ["user_id", "item_id", "rating", "timestamp"],
-                "entities": ["user", "item"], "default": True, "repeats": False})
+                "entities": ["user", "item"], "default": rng.chance(1, 2), "repeats": False})
     S.dblds[d1]["rels"]["rating"] = True
     S.dblds[d1]["ents"].setdefault("user", set())
     dbuild(d1)
@@ -313,14 +388,18 @@ def gen_history(rng):
         S.pblds[p0]["nodes"][n] = "in"
     for _ in range(rng.randint(2, 5)):
         pb_step(p0)
-    if "Learner" not in S.pblds[p0]["comps"].values() and rng.chance(3, 4):
-        free = [x for x in ["m1", "m2"] if x not in S.pblds[p0]["nodes"]]
-        st = rng.choice(STYLES["Learner"])
-        ops.append({"op": "pb_add", "b": p0, "name": free[0], "comp": "Learner", "style": st, "settings": {"bias": rng.randint(0, 9)},
-                    "ins": [["x", "a"]]})
-        S.pblds[p0]["nodes"][free[0]] = "comp"
-        S.pblds[p0]["comps"][free[0]] = "Learner"
-        S.pblds[p0]["tok"][free[0]] = ("ctor",) if st == "class" else ("inst", S.tok())
+    for m, want in (("m1", (3, 4)), ("m2", (1, 3))):
+        # trainable components of either kind (a Component subclass, a plain callable object with train())
+        have = {c for c in S.pblds[p0]["comps"].values() if c in TRAINABLE}
+        if len(have) < (1 if m == "m1" else 2) and rng.chance(*want):
+            comp = rng.choice([c for c in TRAINABLE if c not in have])
+            st = rng.choice(STYLES[comp])
+            ops.append({"op": "pb_add", "b": p0, "name": m, "comp": comp, "style": st, "settings": settings_for(rng, comp), "ins": [["x", "a"]],
+                        "lits": {}})
+            S.pblds[p0]["nodes"][m] = "comp"
+            S.pblds[p0]["comps"][m] = comp
+            S.pblds[p0]["tok"][m] = ("ctor",) if st == "class" else ("inst", S.tok())
+            S.pblds[p0]["lw"][m] = set()
     if S.pblds[p0]["comps"] and not any(t in S.pblds[p0]["comps"] for t in S.pblds[p0]["aliases"].values()) and rng.chance(3, 4):
         pb_step(p0, prefer="alias")
     pbuild(p0)
@@ -337,7 +416,7 @@ def gen_history(rng):
 
     # --- the continuation ---
     for _ in range(rng.randint(6, 18)):
-        kind = rng.weighted([("pb", 5), ("pbuild", 2), ("pmodify", 2), ("pclone", 2), ("ptrain", 2), ("prun", 1),
+        kind = rng.weighted([("pb", 5), ("pbuild", 2), ("pmodify", 2), ("pclone", 2), ("pfromconfig", 2), ("ptrain", 2), ("prun", 1),
                              ("db", 5), ("dbuild", 2), ("dfrom", 2), ("dsplit", 3), ("dnew", 1), ("pnew", 1)])
         if kind == "pb":
             pb_step(rng.below(len(S.pblds)))
@@ -347,7 +426,7 @@ def gen_history(rng):
             j = rng.below(len(S.pipes))
             ops.append({"op": "pmodify", "p": j})
             p = S.pipes[j]
-            S.pblds.append({"nodes": dict(p["nodes"]), "comps": dict(p["comps"]), "aliases": dict(p["aliases"]), "tok": dict(p["tok"])})
+            S.pblds.append(pcopy(p))
             # the derived builder is edited straight away (its first edits are the ones that meet whatever it took from the pipeline)
             if rng.chance(3, 4):
                 for _ in range(rng.randint(1, 3)):
@@ -356,8 +435,27 @@ def gen_history(rng):
             j = rng.below(len(S.pipes))
             ops.append({"op": "pclone", "p": j})
             p = S.pipes[j]
-            S.pipes.append({"nodes": dict(p["nodes"]), "comps": dict(p["comps"]), "aliases": dict(p["aliases"]),
-                            "tok": {n: ("inst", S.tok()) for n in p["tok"]}})
+            S.pipes.append(pcopy(p, fresh_toks(p)))
+            # "cloning it and training or running the clone"
+            if rng.chance(2, 3):
+                use_derived(len(S.pipes) - 1)
+        elif kind == "pfromconfig":
+            # the pipeline's OWN configuration object handed back to lenskit: a pipeline or a builder made from it, from its JSON form,
+            # or the object merely validated
+            j = rng.below(len(S.pipes))
+            how = rng.choice(["pipeline", "pipeline", "builder", "builder", "json", "validate"])
+            ops.append({"op": "pfromconfig", "p": j, "how": how})
+            p = S.pipes[j]
+            if how in ("pipeline", "json"):
+                S.pipes.append(pcopy(p, fresh_toks(p)))
+                if rng.chance(1, 2):
+                    use_derived(len(S.pipes) - 1)
+            elif how == "builder":
+                S.pblds.append(pcopy(p, fresh_toks(p)))
+                for _ in range(rng.randint(0, 2)):
+                    pb_step(len(S.pblds) - 1)
+                if rng.chance(1, 2):
+                    pbuild(len(S.pblds) - 1)
         elif kind == "ptrain":
             ok = [j for j, p in enumerate(S.pipes)
                   if all(not (learner_toks(p) & learner_toks(q)) for k, q in enumerate(S.pipes) if k != j)]
@@ -405,6 +503,9 @@ def gen_history(rng):
             i = new_pbld(rng.choice([None, "second"]))
             ops.append({"op": "pb_input", "b": i, "name": "a"})
             S.pblds[i]["nodes"]["a"] = "in"
+    for op in ops:
+        if op["op"] in ("pb_add", "pb_replace", "pb_connect"):
+            op.setdefault("lits", {})
     return {"kind": "history", "ops": ops, "runs": [{"a": 3, "b": 5}, {"a": 10, "b": 0}], "deep": True, "style": "history"}
 
 
@@ -501,12 +602,18 @@ def given(op):
 def model_ops(case, obs):
     """the model operations each real step stands for; handles of dataset builders are renumbered because a split
     creates a builder of its own"""
-    CODES = {"inc": "vcomp:inc", "neg": "vcomp:neg", "add": "vcomp:add", "mix3": "vcomp:mix3", "twice": "vcomp:Box.twice", "Scale": "vcomp:Scale",
-             "Affine": "vcomp:Affine", "Learner": "vcomp:Learner", "NoSettings": "vcomp:NoSettings"}
     dmap = []          # real dataset-builder index -> model index
     n_dblds = 0
+    n_pblds = 0
     out = []
-    for op, st in zip(case["ops"], obs["steps"]):
+
+    def lit_wiring(op, r):
+        "a literal VALUE wired to an input: the builder makes a literal node (named after its content) and wires the input to it"
+        lits = op.get("lits") or {}
+        nodes = [f"PBNode {op['b']} {cs(r['lits'][p_])} (NSLit {cs(repr(v))})" for p_, v in lits.items()]
+        return nodes, [[p_, r["lits"][p_]] for p_ in lits]
+
+    for t, (op, st) in enumerate(zip(case["ops"], obs["steps"])):
         r = st["result"]
         k = op["op"]
         ms = []
@@ -518,6 +625,7 @@ def model_ops(case, obs):
 
         if k == "pnew":
             ms.append(f"PNew {costr(op.get('name'))}")
+            n_pblds += 1
         elif k == "pb_input" and not err:
             ms.append(f"PBNode {op['b']} {cs(op['name'])} NSIn")
         elif k == "pb_literal" and not err:
@@ -526,10 +634,14 @@ def model_ops(case, obs):
             code = CODES[op["comp"]]
             spec = f"(NSCtor {cs(code)})" if op.get("style") == "class" else f"(NSInst {cs(code)})"
             ms.append(f"PBNode {op['b']} {cs(op['name'])} {spec}")
-            ms.append(f"PBWire {op['b']} {cs(op['name'])} {wire_fun(op['ins'])}")
+            lnodes, lins = lit_wiring(op, r)
+            ms += lnodes
+            ms.append(f"PBWire {op['b']} {cs(op['name'])} {wire_fun(op['ins'] + lins)}")
         elif k == "pb_connect" and not err:
             # the model is handed the string the real call was handed (an alias is resolved by the model itself)
-            ms.append(f"PBWire {op['b']} {cs(given(op))} {wire_fun(op['ins'])}")
+            lnodes, lins = lit_wiring(op, r)
+            ms += lnodes
+            ms.append(f"PBWire {op['b']} {cs(given(op))} {wire_fun(op['ins'] + lins)}")
         elif k == "pb_clear" and not err:
             ms.append(f"PBClear {op['b']} {cs(given(op))}")
         elif k == "pb_alias" and not err:
@@ -542,8 +654,20 @@ def model_ops(case, obs):
             ms.append(f"PBuild {op['b']}")
         elif k == "pmodify" and not err:
             ms.append(f"PModify {op['p']}")
+            n_pblds += 1
         elif k == "pclone" and not err:
             ms.append(f"PClone {op['p']}")
+        elif k == "pfromconfig" and not err:
+            if op["how"] in ("pipeline", "json"):
+                # Pipeline.from_config(cfg) = PipelineBuilder.from_config(cfg).build(): what clone() does
+                ms.append(f"PClone {op['p']}")
+            elif op["how"] == "builder":
+                # PipelineBuilder.from_config performs builder calls -- create_input, literal, add_component with a newly made instance,
+                # connect, alias -- on a NEW builder, reading the configuration as it stood before the call
+                # (Model/C14_heap.v: from_config_ops; theorem from_config_of_own_configuration_frozen)
+                src = obs["steps"][t - 1]["snap"]["pipes"][op["p"]]
+                ms = f"(from_config_ops {n_pblds} {c_pobs(src)})"
+                n_pblds += 1
         elif k == "ptrain" and not err:
             ms.append(f"PTrain {op['p']} {cs(r['label'])} [" + "; ".join(cs(c) for c in TRAINABLE_CODES) + "]")
         elif k == "prun":
@@ -579,18 +703,47 @@ def coq_term(case, obs):
         return None
     mops = model_ops(case, obs)
     steps = []
+    # an object that does not change is observed identically after every step: the observations are written as differences
+    # (Model/C14_heap.v: trace_ok_d; None = exactly as after the previous step)
+    prev = {"pipes": [], "dsets": []}
+
+    def delta(fam, render, objs):
+        cur = [render(o) for o in objs]
+        out = ["None" if j < len(prev[fam]) and prev[fam][j] == c else f"Some {c}" for j, c in enumerate(cur)]
+        prev[fam] = cur
+        return "[" + "; ".join(out) + "]"
+
     for ms, st in zip(mops, obs["steps"]):
-        ps = "[" + "; ".join(c_pobs(o) for o in st["snap"]["pipes"]) + "]"
-        ds = "[" + "; ".join(c_dobs(o) for o in st["snap"]["dsets"]) + "]"
-        steps.append("([" + "; ".join(ms) + f"],\n   ({ps}, {ds}))")
-    return "trace_ok init [" + ";\n ".join(steps) + "]"
+        ps = delta("pipes", c_pobs, st["snap"]["pipes"])
+        ds = delta("dsets", c_dobs, st["snap"]["dsets"])
+        steps.append("(" + (ms if isinstance(ms, str) else "[" + "; ".join(ms) + "]") + f",\n   ({ps}, {ds}))")
+    return share_strings("trace_ok_d init [] [] [" + ";\n ".join(steps) + "]")
+
+
+_STRLIT = __import__("re").compile(r'"(?:[^"]|"")*"')
+
+
+_STRINGS: dict = {}
+
+
+def share_strings(term: str) -> str:
+    """Every distinct string literal of the case terms becomes a constant `sx<k>` defined once in the header of the case files (the
+    framework reads CASE_HEADER after all terms have been made).  A history repeats the same few dozen strings -- node names, component
+    codes, rendered schema entries, table digests -- thousands of times, and reading a string literal is what Coq spends its time on;
+    binding them with `let` inside the term is no cure (elaboration slows down with the size of the local context)."""
+    global CASE_HEADER
+    n0 = len(_STRINGS)
+    body = _STRLIT.sub(lambda m: _STRINGS.setdefault(m.group(0), f"sx{len(_STRINGS)}"), term)
+    if len(_STRINGS) != n0:
+        CASE_HEADER = BASE_HEADER + "\n" + "\n".join(f"Definition {v} := {k}." for k, v in _STRINGS.items())
+    return body
 
 
 # ---------------------------------------------------------------------------------------------
 # the property as a predicate on implementation output (independent of the Coq model)
 # ---------------------------------------------------------------------------------------------
 
-P_CONST = ["name", "edges", "aliases", "default", "hash", "config", "nic", "private_edges", "lookup"]
+P_CONST = ["name", "edges", "aliases", "default", "hash", "hash_of_config", "config", "nic", "private_edges", "lookup"]
 
 
 def render_history(case, obs, t0, t1):
@@ -605,6 +758,23 @@ def render_history(case, obs, t0, t1):
             extra = f"{extra} as node object"
         out.append(f"{op['op']}({h}{':' + str(extra) if extra else ''}){'!' + st['result']['err'] if st['result']['err'] else ''}")
     return " -> ".join(out)
+
+
+def show_diff(a, b, width=110):
+    "two renderings cut around the first place where they differ"
+    a, b = json.dumps(a), json.dumps(b)
+    k = next((i for i, (x, y) in enumerate(zip(a, b)) if x != y), min(len(a), len(b)))
+    lo = max(0, k - width // 3)
+    return f"{'...' if lo else ''}{a[lo:lo + width]} -> {'...' if lo else ''}{b[lo:lo + width]}"
+
+
+def rebased_d(ref, o):
+    """a description that changed while observation `o` was reading the dataset is reported as such (changed-by-reading); what follows is
+    compared with what it had become when that observation ended"""
+    e = o.get("end")
+    if not e:
+        return ref
+    return {**ref, "meta": e["meta"], "ents": e["ents"], "rels": e["rels"], "views": {**ref.get("views", {}), "schema-json": e["schema-json"]}}
 
 
 def oracle(case, obs):
@@ -646,32 +816,43 @@ def oracle(case, obs):
                             bad(f"component-instance-shared:after-{op['op']}",
                                 f"pipelines #{j} and #{k2} hold the same component object for node {n} although each should have its own; "
                                 f"history: {render_history(case, obs, 0, t)}")
+        # an observation only READS: the description of an object (configuration document; schema document and tables) is re-read after
+        # each group of accessors within one observation
+        for fam, objs in (("pipeline", st["snap"]["pipes"]), ("dataset", st["snap"]["dsets"])):
+            for j, o in enumerate(objs):
+                for what in o.get("read_changes", []):
+                    if once((fam, j, "read", what)):
+                        bad(f"{fam}-changed-by-reading:{what}", f"{fam} #{j}: its {'configuration' if fam == 'pipeline' else 'schema / tables'} changed while it was "
+                            f"only being read ({what}), at the observation after step {t} ({op['op']}); history: {render_history(case, obs, 0, t)}")
         for j, o in enumerate(st["snap"]["pipes"]):
             if j not in first_p:
-                first_p[j] = (t, o)
+                first_p[j] = (t, {**o, **(o.get("end") or {})})
                 continue
             t0, o0 = first_p[j]
             for f in P_CONST:
                 if o[f] != o0[f] and once(("p", j, f)):
                     bad(f"pipeline-changed:{f}:after-{after}", f"pipeline #{j} built at step {t0} has a different {f} after step {t} ({op['op']}): "
-                                                              f"{json.dumps(o0[f])[:120]} -> {json.dumps(o[f])[:120]}; history: {render_history(case, obs, t0, t)}")
+                                                              f"{show_diff(o0[f], o[f])}; history: {render_history(case, obs, t0, t)}")
             if not (op["op"] == "ptrain" and op["p"] == j and not st["result"]["err"]):
                 for f in ("nodes", "runs"):
                     if o[f] != o0[f] and once(("p", j, f)):
                         bad(f"pipeline-changed:{f}:after-{after}", f"pipeline #{j} (not trained since it was last observed) has different {f} after step {t} "
-                            f"({op['op']}): {json.dumps(o0[f])[:100]} -> {json.dumps(o[f])[:100]}; history: {render_history(case, obs, t0, t)}")
+                            f"({op['op']}): {show_diff(o0[f], o[f])}; history: {render_history(case, obs, t0, t)}")
             else:
                 # the pipeline itself was trained in this step: its component state and results are re-recorded from here on
                 first_p[j] = (t, {**o0, "nodes": o["nodes"], "runs": o["runs"]})
+            if o.get("end"):
+                # the configuration changed while this observation was reading it (reported above): what follows is compared with what it became
+                first_p[j] = (first_p[j][0], {**first_p[j][1], **o["end"]})
         for j, o in enumerate(st["snap"]["dsets"]):
             if j not in first_d:
-                first_d[j] = (t, o)
+                first_d[j] = (t, rebased_d(o, o))
                 continue
             t0, o0 = first_d[j]
             for f in ("meta", "ents", "rels", "tables"):
                 if o[f] != o0[f] and once(("d", j, f)):
                     bad(f"dataset-changed:{f}:after-{after}", f"dataset #{j} built at step {t0} has a different {f} after step {t} ({op['op']}): "
-                                                             f"{json.dumps(o0[f])[:140]} -> {json.dumps(o[f])[:140]}; history: {render_history(case, obs, t0, t)}")
+                                                             f"{show_diff(o0[f], o[f], 140)}; history: {render_history(case, obs, t0, t)}")
             ks = [k for k in o.get("views", {}) if k in o0.get("views", {}) and o["views"][k] != o0["views"][k]]
             ks += [k for k in o0.get("views", {}) if k != "saved" and k not in o.get("views", {})]
             # one report per kind of view (identifiers, attributes, relationship frames, matrices, statistics, counts, rows, saved form, schema document)
@@ -681,6 +862,7 @@ def oracle(case, obs):
                     bad(f"dataset-changed:view-{kind}:after-{after}", f"dataset #{j} built at step {t0} shows different {mine} after step {t} ({op['op']}): "
                         f"{json.dumps(o0['views'].get(mine[0]))[:100]} -> {json.dumps(o.get('views', {}).get(mine[0]))[:100]}; "
                         f"history: {render_history(case, obs, t0, t)}")
+            first_d[j] = (t0, rebased_d(first_d[j][1], o))
     return v
 
 
@@ -702,6 +884,15 @@ def nontrivial(case, obs):
     return watched >= 1 and muts >= 1
 
 
+def pipe_facts(o):
+    "what kinds of component a pipeline observation shows, and how many of its literal nodes nothing refers to"
+    cfg = json.loads(o["config"])
+    used = {t for c in cfg["components"].values() for t in c["inputs"].values()} | set(cfg["aliases"].values()) | {cfg.get("default")}
+    codes = {c["code"] for c in cfg["components"].values()}
+    return {"orphans": sum(1 for n in cfg["literals"] if n not in used), "literals": len(cfg["literals"]),
+            "plain": any(c.startswith("c14_comp:") for c in codes), "plain_trainable": "c14_comp:PlainLearner" in codes}
+
+
 def counters(case, obs):
     yield "style=" + case["style"].split(":")[0]
     if case["kind"] == "std":
@@ -715,6 +906,24 @@ def counters(case, obs):
             yield "split=" + op["how"] + (":repeats" if op.get("repeats") else "")
         if "by" in op:
             yield f"{op['op']}:node-named-by={op['by']}"
+        if op["op"] in ("pb_add", "pb_replace", "pb_connect") and not st["result"]["err"]:
+            yield f"{op['op']}:literal-values-wired={len(op.get('lits') or {})}"
+            if op["op"] != "pb_connect":
+                yield f"component-kind={'function' if op['style'] == 'fn' else 'plain-callable-object' if CODES[op['comp']].startswith('c14_comp') else 'Component-by-' + op['style']}" \
+                      f"{'(trainable)' if op['comp'] in TRAINABLE else ''}"
+        if op["op"] in ("pclone", "pfromconfig", "pmodify", "ptrain") and not st["result"]["err"]:
+            f = pipe_facts(st["snap"]["pipes"][op["p"]])
+            tag = op["op"] + (":" + op["how"] if "how" in op else "")
+            if op["op"] != "ptrain":
+                yield f"{tag}:source-has-unreferenced-literal={f['orphans'] > 0}"
+                yield f"{tag}:source-has-plain-callable-object={f['plain']}"
+            else:
+                yield f"ptrain:target-has-trainable-plain-callable={f['plain_trainable']}"
+        if op["op"] == "dbuild" and not st["result"]["err"]:
+            d = st["snap"]["dsets"][-1]
+            n_int = sum(1 for v in d["rels"].values() if json.loads(v).get("interaction"))
+            yield "dbuild:default-interaction-class=" + ("marked" if d["meta"]["default_interaction"] else
+                                                         {0: "none", 1: "unmarked-single"}.get(n_int, "unmarked-several"))
         if op["op"] in ("dsplit", "dfrom") and not st["result"]["err"] and op["d"] < len(st["snap"]["dsets"]):
             f = st["snap"]["dsets"][op["d"]].get("facts")
             if isinstance(f, dict):
